@@ -14,23 +14,9 @@
     `start ≤ end` (the correspondence streams only generate such calls).
 -/
 import RbModel.Gen.Buf
+import RbModel.Mem
 
 namespace RbModel
-
-inductive Panic where
-  | oob      -- index / slice out of bounds
-  | assert   -- `assert!` failed
-  deriving DecidableEq, Repr
-
-abbrev M := Except Panic
-
-structure Info where
-  gid : Nat := 0
-  mask : Nat := 0
-  cluster : Nat := 0
-  var1 : Nat := 0
-  var2 : Nat := 0
-  deriving DecidableEq, Repr, Inhabited
 
 namespace Flag
 def UNSAFE_TO_BREAK : Nat := 1
@@ -71,13 +57,7 @@ def MAX_OPS_DEFAULT : Int := 0x1FFFFFFF
 
 /-! ### list helpers with Rust's panicking semantics -/
 
-def get (l : List Info) (i : Nat) : M Info :=
-  match l[i]? with
-  | some x => pure x
-  | none => throw .oob
-
-def put (l : List Info) (i : Nat) (x : Info) : M (List Info) :=
-  if i < l.length then pure (l.set i x) else throw .oob
+export Mem (get put)
 
 /-- `Vec::resize(size, default)`: truncates or pads with zeros -/
 def resize (l : List Info) (size : Nat) : List Info :=
@@ -108,32 +88,16 @@ def ensure (b : Buf) (size : Nat) : Buf × Bool :=
               out := if size > b.out.length then resize b.out size else b.out }, true)
   else ({ b with info := resize b.info size, out := resize b.out size }, true)
 
-/-- copy `info[0..n)` into the out array (the loop of make_room_for) -/
-def copyPrefix (b : Buf) : Nat → Nat → M Buf
-  | 0, _ => pure b
-  | k + 1, i => do
-      let x ← get b.info i
-      let b ← b.setOut i x
-      copyPrefix b k (i + 1)
-
 /-- src: buffer.rs::make_room_for -/
 def makeRoomFor (b : Buf) (numIn numOut : Nat) : M (Buf × Bool) := do
   let (b, ok) := b.ensure (b.outLen + numOut)
   if !ok then return (b, false)
   if !b.sepOut && b.outLen + numOut > b.idx + numIn then
     if !b.haveOutput then throw .assert
-    let b := { b with sepOut := true }
-    let b ← copyPrefix b b.outLen 0
-    return (b, true)
+    -- `for i in 0..out_len { set_out_info(i, info[i]) }` with the out-buffer now living in `pos`
+    let out ← Mem.copyAcross b.info b.out 0 0 b.outLen 0
+    return ({ b with sepOut := true, out := out }, true)
   return (b, true)
-
-/-- backwards copy `info[idx+count+i] = info[idx+i]` for i = n-1 … 0 -/
-def shiftLoop (info : List Info) (idx count : Nat) : Nat → M (List Info)
-  | 0 => pure info
-  | i + 1 => do
-      let x ← get info (idx + i)
-      let info ← put info (idx + count + i) x
-      shiftLoop info idx count i
 
 def zeroRange (info : List Info) : Nat → Nat → M (List Info)
   | _, 0 => pure info
@@ -142,41 +106,39 @@ def zeroRange (info : List Info) : Nat → Nat → M (List Info)
       zeroRange info (i + 1) k
 
 /-- src: buffer.rs::shift_forward -/
-def shiftForward (b : Buf) (count : Nat) : M Buf := do
+def shiftForward (b : Buf) (count : Nat) : M (Buf × Bool) := do
   if !b.haveOutput then throw .assert
   let (b, ok) := b.ensure (b.len + count)
-  if !ok then return b
-  let info ← shiftLoop b.info b.idx count (b.len - b.idx)
+  if !ok then return (b, false)
+  -- `for i in (0..len-idx).rev() { info[idx+count+i] = info[idx+i] }`
+  let info ← Mem.copyWithinBwd b.info b.idx (b.idx + count) (b.len - b.idx)
   let info ← if b.idx + count > b.len then
       -- `&mut self.info[self.len..self.idx + count]`
       if b.idx + count > info.length then throw .oob else zeroRange info b.len (b.idx + count - b.len)
     else pure info
-  pure { b with info := info, len := b.len + count, idx := b.idx + count }
+  pure ({ b with info := info, len := b.len + count, idx := b.idx + count }, true)
 
-/-- forward copy loop of move_to: `out[outLen + j] = info[idx + j]` for j = 0 … count-1 -/
-def copyToOut (b : Buf) : Nat → Nat → M Buf
-  | 0, _ => pure b
-  | k + 1, j => do
-      let x ← get b.info (b.idx + j)
-      let b ← b.setOut (b.outLen + j) x
-      copyToOut b k (j + 1)
+/-- `for j in 0..n { set_out_info(out_len + j, info[idx + j]) }` (move_to forward, next_glyphs).
+    In non-separate mode this is an ascending copy inside `info` (destination below the source). -/
+def copyToOut (b : Buf) (n : Nat) : M Buf := do
+  if b.sepOut then
+    let out ← Mem.copyAcross b.info b.out b.idx b.outLen n 0
+    pure { b with out := out }
+  else
+    let info ← Mem.copyWithinFwd b.info b.idx b.outLen n 0
+    pure { b with info := info }
 
-/-- rewind copy loop of move_to, in the order the Rust loop runs (`reverse = false`: j = 0 … count-1,
-    which overlaps destructively in non-separate mode; `true`: j = count-1 … 0). The order is a
-    generated constant (`Gen.Buf.moveToRewindReversed`) read from the source. -/
-def copyFromOutFwd (b : Buf) : Nat → Nat → M Buf
-  | 0, _ => pure b
-  | k + 1, j => do
-      let x ← get b.outArr (b.outLen + j)
-      let info ← put b.info (b.idx + j) x
-      copyFromOutFwd { b with info := info } k (j + 1)
-
-def copyFromOutRev (b : Buf) : Nat → M Buf
-  | 0 => pure b
-  | j + 1 => do
-      let x ← get b.outArr (b.outLen + j)
-      let info ← put b.info (b.idx + j) x
-      copyFromOutRev { b with info := info } j
+/-- the rewind loop of move_to, `info[idx + j] = out_info()[out_len + j]`, in the order the source runs it
+    (`Gen.Buf.moveToRewindReversed`: j descending = memmove-safe; ascending overlaps destructively in
+    non-separate mode). Between different Vecs the order is immaterial. -/
+def copyFromOut (b : Buf) (n : Nat) : M Buf := do
+  if b.sepOut then
+    let info ← Mem.copyAcross b.out b.info b.outLen b.idx n 0
+    pure { b with info := info }
+  else
+    let info ← if Gen.Buf.moveToRewindReversed then Mem.copyWithinBwd b.info b.outLen b.idx n
+               else Mem.copyWithinFwd b.info b.outLen b.idx n 0
+    pure { b with info := info }
 
 /-- src: buffer.rs::move_to -/
 def moveTo (b : Buf) (i : Nat) : M (Buf × Bool) := do
@@ -189,14 +151,15 @@ def moveTo (b : Buf) (i : Nat) : M (Buf × Bool) := do
     let count := i - b.outLen
     let (b, ok) ← b.makeRoomFor count count
     if !ok then return (b, false)
-    let b ← copyToOut b count 0
+    let b ← copyToOut b count
     return ({ b with idx := b.idx + count, outLen := b.outLen + count }, true)
   else if b.outLen > i then
     let count := b.outLen - i
-    let b ← if b.idx < count then b.shiftForward (count - b.idx) else pure b
+    let (b, ok) ← if b.idx < count then b.shiftForward (count - b.idx) else pure (b, true)
+    if !ok then return (b, false)
     if b.idx < count then throw .assert
     let b := { b with idx := b.idx - count, outLen := b.outLen - count }
-    let b ← if Gen.Buf.moveToRewindReversed then copyFromOutRev b count else copyFromOutFwd b count 0
+    let b ← copyFromOut b count
     return (b, true)
   else return (b, true)
 
@@ -212,20 +175,13 @@ def nextGlyph (b : Buf) : M Buf := do
     return { b with outLen := b.outLen + 1, idx := b.idx + 1 }
   return { b with idx := b.idx + 1 }
 
-def copyN (b : Buf) : Nat → Nat → M Buf
-  | 0, _ => pure b
-  | k + 1, i => do
-      let x ← get b.info (b.idx + i)
-      let b ← b.setOut (b.outLen + i) x
-      copyN b k (i + 1)
-
 /-- src: buffer.rs::next_glyphs -/
 def nextGlyphs (b : Buf) (n : Nat) : M Buf := do
   if b.haveOutput then
     if b.sepOut || b.outLen != b.idx then
       let (b, ok) ← b.makeRoomFor n n
       if !ok then return b
-      let b ← copyN b n 0
+      let b ← copyToOut b n
       return { b with outLen := b.outLen + n, idx := b.idx + n }
     return { b with outLen := b.outLen + n, idx := b.idx + n }
   return { b with idx := b.idx + n }
